@@ -1092,3 +1092,39 @@ func LockDelayScenario() []Cmd {
 	unlock := mk(structs.KVSRequestType, "kvs:unlock", &structs.KVSRequest{Datacenter: "dc1", Op: api.KVUnlock, DirEnt: structs.DirEntry{Key: "a", Session: s2}})
 	return []Cmd{mk(structs.RegisterRequestType, "register", &reg), mkSess(s1), mkSess(s2), lock(s1), destroy, txn, unlock, lock(s2)}
 }
+
+// GatewayShrinkScenario: a terminating gateway links several services that have nothing else in the
+// catalog (their virtual IP hangs on the gateway alone); the entry is then rewritten several times so
+// that two or more services drop out in ONE write and new ones come in (each needing a virtual IP from
+// the free list or the counter). Which addresses end up free / assigned must not depend on any
+// iteration order inside one replica.
+func GatewayShrinkScenario(r *core.Rand) []Cmd {
+	out := VIPPrelude()
+	write := func(names []string) {
+		e := &structs.TerminatingGatewayConfigEntry{Kind: structs.TerminatingGateway, Name: "tgw"}
+		for _, n := range names {
+			e.Services = append(e.Services, structs.LinkedService{Name: n})
+		}
+		e.Normalize()
+		creq := structs.ConfigEntryRequest{Datacenter: "dc1", Op: structs.ConfigEntryUpsert, Entry: e}
+		out = append(out, Cmd{Type: structs.ConfigEntryRequestType, Class: "config:upsert:terminating-gateway", Desc: "config:upsert terminating-gateway/tgw " + core.JSON(e), Bytes: enc(structs.ConfigEntryRequestType, &creq)})
+	}
+	n := 0
+	fresh := func(k int) []string {
+		var s []string
+		for i := 0; i < k; i++ {
+			n++
+			s = append(s, fmt.Sprintf("ext%d", n))
+		}
+		return s
+	}
+	cur := fresh(5)
+	write(cur)
+	for round := 0; round < 4; round++ {
+		keep := cur[:1+r.Intn(2)] // drops 3 or more at once
+		write(keep)
+		cur = append(append([]string{}, keep...), fresh(5-len(keep))...)
+		write(cur)
+	}
+	return out
+}
